@@ -101,15 +101,7 @@ func runC25(c *Ctx) {
 	if e == nil {
 		return
 	}
-	// ---- keeper RecoverClient(k#0, ctx#1, subject#2, substitute#3)
-	if rr := c.Run(which, "core/02-client/keeper.Keeper.RecoverClient"); rr != nil {
-		c.Check(which, "C25/keeper/recover", c.Calls(rr, "iface:core/exported.LightClientModule.RecoverClient"), 1, nil, nil,
-			Req{Name: "gates", Args: map[int]string{0: "?lcm", 2: "param#2", 3: "param#3"}, Any: all(
-				"ne($LCM.Status(?lcm, _, param#2), core/exported.Active)",
-				"eq($LCM.Status(?lcm, _, param#3), core/exported.Active)",
-				"F(call:$clientT.Height.GTE($LCM.LatestHeight(?lcm, _, param#2), $LCM.LatestHeight(?lcm, _, param#3)))",
-			)})
-	}
+	c.recoverGate(which, "C25")
 	// ---- tendermint module: stores of subject and substitute
 	if rr := c.Run(which, tm+".LightClientModule.RecoverClient"); rr != nil {
 		subj := `call:prefix.NewStore(_, ~key("clients/{s}/", param#2))`
@@ -206,10 +198,7 @@ func runC25(c *Ctx) {
 		c.Check(which, "C25/keeper/upgrade", c.Calls(rr, "iface:core/exported.LightClientModule.VerifyUpgradeAndUpdateState"), 1, nil, nil,
 			Req{Name: "active-client", Args: map[int]string{2: "?cid"}, Any: all("eq($LCM.Status(_, _, ?cid), core/exported.Active)")})
 	}
-	if rr := c.Run(which, tm+".LightClientModule.VerifyUpgradeAndUpdateState"); rr != nil {
-		c.CheckRets(which, "C25/tm/upgrade-module", rr, NilErr(e), 1, nil,
-			Req{Name: "strictly-greater-height", Any: all("T(call:$clientT.Height.GT(_, _))")})
-	}
+	c.upgradeGate(which, "C25")
 	// VerifyUpgradeAndUpdateState(cs#0, ctx#1, cdc#2, clientStore#3, upgradedClient#4, upgradedConsState#5, proofClient#6, proofCons#7)
 	if rr := c.Run(which, tm+".ClientState.VerifyUpgradeAndUpdateState"); rr != nil {
 		last := "field:LatestHeight(param#0)"
@@ -236,6 +225,34 @@ func runC25(c *Ctx) {
 		)
 	}
 	_ = interp.New
+}
+
+// recoverGate: the keeper hands a recovery to the light client module only for a
+// non-Active subject, an Active substitute and a subject whose latest height is
+// strictly below the substitute's (so recovery cannot lower the latest height).
+func (c *Ctx) recoverGate(which, pfx string) {
+	// RecoverClient(k#0, ctx#1, subject#2, substitute#3)
+	if rr := c.Run(which, "core/02-client/keeper.Keeper.RecoverClient"); rr != nil {
+		c.Check(which, pfx+"/keeper/recover", c.Calls(rr, "iface:core/exported.LightClientModule.RecoverClient"), 1, nil, nil,
+			Req{Name: "gates", Args: map[int]string{0: "?lcm", 2: "param#2", 3: "param#3"}, Any: all(
+				"ne($LCM.Status(?lcm, _, param#2), core/exported.Active)",
+				"eq($LCM.Status(?lcm, _, param#3), core/exported.Active)",
+				"F(call:$clientT.Height.GTE($LCM.LatestHeight(?lcm, _, param#2), $LCM.LatestHeight(?lcm, _, param#3)))",
+			)})
+	}
+}
+
+// upgradeGate: the tendermint module upgrades only to a client state whose
+// latest height is strictly greater than the stored client state's.
+func (c *Ctx) upgradeGate(which, pfx string) {
+	e := c.Engine(which)
+	if rr := c.Run(which, tm+".LightClientModule.VerifyUpgradeAndUpdateState"); rr != nil {
+		stored := "extract:0(call:$clientT.UnmarshalClientState(_, call:iface:*KVStore.Get(call:prefix.NewStore(_, ~key(\"clients/{s}/\", param#2)), conv:bytes(\"clientState\"))))"
+		c.CheckRets(which, pfx+"/tm/upgrade-module", rr, NilErr(e), 1, nil,
+			Req{Name: "strictly-greater-height", Any: all("T(call:$clientT.Height.GT(field:LatestHeight(esc#*), field:LatestHeight(" + stored + ")))")})
+		c.Check(which, pfx+"/tm/upgrade-module/call", c.Calls(rr, tm+".ClientState.VerifyUpgradeAndUpdateState"), 1, nil, nil,
+			Req{Name: "compared-state-is-the-one-applied", Args: map[int]string{0: "~or(" + stored + ", deref(" + stored + "))", 4: "addr#*"}, Any: all("T(call:$clientT.Height.GT(field:LatestHeight(esc#*), field:LatestHeight(" + stored + ")))")})
+	}
 }
 
 func storeEvents(rr *interp.RunResult) []*interp.Event {
